@@ -51,7 +51,7 @@ def selftest(tier, seed):
         with open(p, "w") as f:
             f.write(json.dumps(dd) + "\n")
         r = run_tlc("Attempt.tla", "Attempt.cfg", {"DEFS": p, "HALT": "0", "EMIT": "0"}, workers=2, metaname="selftest")
-        return {x[1] for x in tlc_records(r["out"]) if x[0] == "VIOL"}
+        return {x[1] for x in tlc_records(r) if x[0] == "VIOL"}
     results.append(("Attempt.tla is silent on the genuine graph", attempt_viols(d0) == set()))
     g1 = copy.deepcopy(d0)
     s = next(i for i, e in enumerate(g1["g"]["early"]) if e)
